@@ -53,7 +53,7 @@ def _offsets(tier, seed):
     return (seed, seed + 5) if tier == "thorough" else (seed,)
 
 
-def _kinds_for(spec, off, sz):
+def _kinds_for(spec, off, sz, tier="quick"):
     """All (layout, container) argument kinds of one spec: every layout incl. read-only per array-bearing parameter,
     crossed with every container kind the factorised-tensor arguments admit."""
     _, params = spec.build(off, sz)
@@ -65,6 +65,10 @@ def _kinds_for(spec, off, sz):
                 conts.append(c)
     conts = conts or [None]
     layouts = list(LAYOUTS) + [f"readonly:{p}" for p, v in params.items() if S.has_arrays(v)]
+    if tier == "thorough":
+        layouts += ["negstride"]
+        if sum(1 for v in params.values() if S.has_arrays(v)) > 1:
+            layouts += ["readonly:*"]
     return [(lay, c) for lay in layouts for c in conts]
 
 
@@ -77,11 +81,34 @@ def prepare(spec, off, sz, layout, container):
         lay = "fresh"
     else:
         lay = layout
+    roles = {k: v.kind for k, v in params.items() if isinstance(v, S.Dec)}
     params = {k: S.map_arrays(v, lambda a: S.relayout(a, lay)) for k, v in params.items()}
     params = {k: S.materialise(v, container or "tuple") for k, v in params.items()}
-    if ro is not None:
+    if ro == "*":
+        for v in params.values():
+            S.set_readonly(v)
+    elif ro is not None:
         S.set_readonly(params[ro])
+    prepare.roles = roles  # kinds of the factorised-tensor parameters of the call just prepared (used to name paths)
     return fn, params
+
+
+_ROLE_NAMES = {"cp": ("weights", "factors"), "tucker": ("core", "factors"), "parafac2": ("weights", "factors", "projections")}
+
+
+def role_path(path, roles, params):
+    """Name the components of a factorised-tensor argument by role, whatever container kind it was passed in:
+    init[1][2] (tuple / list) and init.factors[2] (wrapper) both become init.factors[2]."""
+    kind = roles.get(path[0])
+    if kind is None or len(path) < 2:
+        return path
+    if kind in _ROLE_NAMES:
+        if isinstance(path[1], int) and path[1] < len(_ROLE_NAMES[kind]):
+            return [path[0], _ROLE_NAMES[kind][path[1]]] + list(path[2:])
+        return path
+    if isinstance(params[path[0]], (list, tuple)):  # tt / tr / tt-matrix passed as a bare sequence of cores
+        return [path[0], "factors"] + list(path[1:])
+    return path
 
 
 def execute(spec, fn, params):
@@ -150,7 +177,7 @@ class C15(Check):
             n = 0
             for spec in e.specs:
                 for sz in _sizes(spec, tier):
-                    n += len(_kinds_for(spec, seed, sz)) * len(_offsets(tier, seed))
+                    n += len(_kinds_for(spec, seed, sz, tier)) * len(_offsets(tier, seed))
             gs.append(({"entry": name, "family": e.family}, n * _weight(name)))
         gs.sort(key=lambda t: -t[1])
         out = [g for g, _ in gs]
@@ -163,7 +190,7 @@ class C15(Check):
         for off in _offsets(tier, seed):
             for si, spec in enumerate(e.specs):
                 for sz in _sizes(spec, tier):
-                    for layout, container in _kinds_for(spec, off, sz):
+                    for layout, container in _kinds_for(spec, off, sz, tier):
                         case = {"entry": e.name, "spec": si, "label": spec.label, "sz": sz, "off": off, "layout": layout, "container": container}
                         if first:
                             case["report_completeness"] = True
@@ -179,12 +206,14 @@ class C15(Check):
             self._report_completeness(ctx)
         layout, container = case["layout"], case["container"]
         fn, params = prepare(spec, case["off"], case["sz"], layout, container)
+        roles = dict(prepare.roles)
         snaps = {k: S.snapshot(v) for k, v in params.items()}
         mutable = any(self._has_mutable(n) for n in snaps.values())
         status, exc = execute(spec, fn, params)
         ctx.count("calls")
         ctx.count(f"family:{e.family}")
-        tag = f"{e.name}[{spec.label}] size={case['sz']} off={case['off']} layout={layout} container={container}"
+        site = e.name + (f"@{spec.tenalg}" if spec.tenalg else "")
+        tag = f"{site}[{spec.label}] size={case['sz']} off={case['off']} layout={layout} container={container}"
 
         if status == "raised" and isinstance(exc, TypeError) and not _entered_library(exc):
             ctx.count("guarded_out:call-rejected-by-signature")
@@ -194,6 +223,7 @@ class C15(Check):
             ctx.nontriv([case["entry"], case["label"], case["sz"], case["off"], layout, container])
 
         diffs, counters = diff_params(snaps)
+        diffs = [(role_path(p, roles, params), a, d) for p, a, d in diffs]
         for k, v in counters.items():
             ctx.count(k, v)
         viol, exempt_hits = [], 0
@@ -216,12 +246,12 @@ class C15(Check):
 
         for path, aspect, detail in viol:
             cls = spec.classes.get(path[0], "any")
-            sig = f"{e.name}/{S.generic_path(path)}:{aspect}/{cls}"
+            sig = f"{site}/{S.generic_path(path)}:{aspect}/{cls}"
             ctx.violation(sig, f"{tag}: argument {S.concrete_path(path)} {aspect} after the call {exit_cls}"
                                f"{' (' + str(exc)[:120] + ')' if exc is not None else ''}: {detail}")
 
         if ro_param is not None and status == "raised" and _is_readonly_error(exc):
-            self._readonly_case(case, spec, e, ro_param, exc, tag, ctx)
+            self._readonly_case(case, spec, site, ro_param, exc, tag, ctx)
             ctx.outcome("read-only-write-attempt" + ("/exempt" if ro_param in spec.exempt else ""))
         elif viol:
             ctx.outcome(f"{'returned' if status == 'returned' else 'raised'}/argument-changed")
@@ -229,15 +259,16 @@ class C15(Check):
             ctx.outcome(f"{'returned' if status == 'returned' else 'raised'}/only-exempt-parameter-changed")
         else:
             ctx.outcome(f"{'returned' if status == 'returned' else 'raised'}/arguments-unchanged")
-        if len(ctx.samples) < 2 and (case["spec"] == 2 or len(e.specs) < 3) and layout == "tview":
+        if len(ctx.samples) < 2 and layout == "tview" and case["spec"] == min(2, len(e.specs) - 1):
             ctx.sample({"case": case, "params": {k: S._describe(v) if not hasattr(v, "__dict__") else type(v).__name__ for k, v in params.items()},
                         "exit": exit_cls, "differences": [f"{S.concrete_path(p)}:{a}" for p, a, _ in diffs]})
 
     # ------------------------------------------------------------------------------------------
-    def _readonly_case(self, case, spec, e, ro_param, exc, tag, ctx):
+    def _readonly_case(self, case, spec, site, ro_param, exc, tag, ctx):
         """The library raised '... read-only' while parameter `ro_param` was read-only."""
         # control: identical call on writeable arrays
         fn, params = prepare(spec, case["off"], case["sz"], "fresh", case["container"])
+        roles = dict(prepare.roles)
         snaps = {k: S.snapshot(v) for k, v in params.items()}
         status, exc2 = execute(spec, fn, params)
         if status == "raised" and _is_readonly_error(exc2):
@@ -247,16 +278,21 @@ class C15(Check):
             ctx.count("exempt_parameter_write_attempt(documented in-place)")
             return
         diffs, _ = diff_params(snaps)
-        written = [(p, a, d) for p, a, d in diffs if p[0] == ro_param and a in ("array-written", "array-buffer-written-outside-view")]
-        cls = spec.classes.get(ro_param, "any")
+        diffs = [(role_path(p, roles, params), a, d) for p, a, d in diffs]
+        wr = [(p, a, d) for p, a, d in diffs if a in ("array-written", "array-buffer-written-outside-view") and (ro_param == "*" or p[0] == ro_param)]
+        written = [t for t in wr if t[0][0] not in spec.exempt]
+        if ro_param == "*" and not written and any(t[0][0] in spec.exempt for t in wr):
+            ctx.count("exempt_parameter_write_attempt(documented in-place)")
+            return
         if written:
             # same defect as seen through the byte comparison: same signature
-            for p, a, d in written[:1]:
-                ctx.violation(f"{e.name}/{S.generic_path(p)}:{a}/{cls}",
-                              f"{tag}: the library tried to write into read-only caller memory ({type(exc).__name__}: {exc}); on writeable "
-                              f"arrays the same call changes {S.concrete_path(p)}: {d}")
+            p, a, d = written[0]
+            ctx.violation(f"{site}/{S.generic_path(p)}:{a}/{spec.classes.get(p[0], 'any')}",
+                          f"{tag}: the library tried to write into read-only caller memory ({type(exc).__name__}: {exc}); on writeable "
+                          f"arrays the same call changes {S.concrete_path(p)}: {d}")
         else:
-            ctx.violation(f"{e.name}/{ro_param}:write-attempt-on-read-only-array/{cls}",
+            who = "any-argument" if ro_param == "*" else ro_param
+            ctx.violation(f"{site}/{who}:write-attempt-on-read-only-array/{spec.classes.get(ro_param, 'any')}",
                           f"{tag}: the library tried to write into read-only caller memory reachable from argument '{ro_param}' "
                           f"({type(exc).__name__}: {exc}); the same call on writeable arrays does not raise and leaves the bytes of that argument unchanged")
 
